@@ -6,9 +6,9 @@ import sys
 from harness import fw, irx, gen_expr, bounds_x
 
 META = {
-    "technique": "Coq proof of soundness of a Gallina mirror of expression_bounds.py/constant_value/64-bit gate + differential correspondence with the Python pass (vm_compute)",
-    "level_text": "Machine-checked theorems (Coq 8.16, no axioms): every transfer function of the bounds pass is sound for every expression tree and every environment (interval and congruence), constant_value is exact, the 64-bit gate implies a single C++ type holds each run-time operation with its operands, and +,-,*,$max bounds are attained for linear expressions. The model is tied to /repo by running model and Python pass on the same generated and corpus expressions each run and comparing every sub-expression's annotation, constant_value and gate verdict.",
-    "level_note": "Trusted: Coq kernel + vm_compute; the IR translator harness/irx.py; the generator's coverage of expression shapes (histogram in evidence). Modelled not verified: the Python source itself; user-defined external integer types and $static_size_in_bits are outside the model. Tightness is proved for the arithmetic fragment only (choice refuted: finding F7).",
+    "technique": "Coq proof of soundness of a Gallina mirror of expression_bounds.py/constant_value/64-bit gate; the mirror is tied to the source twice on every run: (T) harness/bounds_x.py, a fail-closed `ast` translator, regenerates Gallina definitions of _add _sub _sign _mul _is_infinite _max _min _greatest_common_divisor _shared_modular_value and of the additive, multiplicative, $max and ?: rules from /repo's current expression_bounds.py and coqc checks generated theorems that each regenerated definition equals the hand-written model function for all arguments; (C) differential correspondence with the Python pass (vm_compute)",
+    "level_text": "Machine-checked theorems (Coq 8.16, no axioms): every transfer function of the bounds pass is sound for every expression tree and every environment (interval and congruence), constant_value is exact, the 64-bit gate implies a single C++ type holds each run-time operation with its operands, and +,-,*,$max bounds are attained for linear expressions. The arithmetic functions those theorems are about are proved equal, on every run, to definitions translated mechanically from the current source text of expression_bounds.py (13 functions; equalities hold for all arguments, for the rules under the precondition 'modulus > 0, modular value >= 0 under a finite modulus', which analyze_wf proves of every operand the analysis produces). The remaining hand-modelled parts (traversal, leaves, constant_value, gate) are tied by running model and Python pass on the same generated and corpus expressions each run and comparing every sub-expression's annotation, constant_value and gate verdict.",
+    "level_note": "Trusted: Coq kernel + vm_compute; the translator harness/bounds_x.py and its value model (a python int and its stringified form are both `Fin z`, str() is the identity, any raised exception or failed assert is `None`; three recognised IR-plumbing no-ops: operand field-presence asserts, ir_data_utils.reader/builder); the run-time library of Bounds/GenBridge.v (py_int, py_mod, py_foldM, ...); the IR translator harness/irx.py; the generator's coverage of expression shapes (histogram in evidence). The translator rejects (violation bounds-translator, naming the function) every statement or expression shape it does not list. Modelled not verified: CPython's evaluation of the translated subset; user-defined external integer types and $static_size_in_bits are outside the model. Tightness is proved for the arithmetic fragment only (choice refuted: finding F7).",
 }
 
 HEADER = "Require Import EmbossV.Bounds.Model EmbossV.Bounds.Exec.\nOpen Scope Z_scope.\n"
@@ -365,18 +365,24 @@ def guard_present(e, ir):
 
 
 def run(ctx):
-    ctx.rule = ("helper calls: random arguments incl. infinities to _add/_sub/_mul/_min/_max/gcd/_shared_modular_value; "
+    ctx.rule = ("regenerated model: 13 functions of expression_bounds.py translated each run and proved equal to Bounds/Model.v "
+                "(on a broken proof: both sides evaluated on argument grids, differences turned into Emboss expressions and "
+                "environments searched); helper calls: random arguments incl. infinities to _add/_sub/_mul/_min/_max/gcd/_shared_modular_value; "
                 "expressions: every maximal expression of the testdata corpus and of generated expression-rich modules "
                 "(typed random trees over UInt/Int/Bcd fields, parameters, flags, enums, virtual fields); a case is "
                 "non-trivial when it has an operator node; distinct by (leaf specs, term)")
-    ctx.trusted = ["Coq 8.16.1 kernel, vm_compute", "harness/irx.py IR translator", "harness/props/c05.py",
+    ctx.trusted = ["Coq 8.16.1 kernel, vm_compute", "harness/bounds_x.py (python ast -> Gallina translator) and the run-time "
+                   "library in Bounds/GenBridge.v", "harness/irx.py IR translator", "harness/props/c05.py",
                    "CPython 3.12 running /repo's front end"]
     ctx.assumptions = ["user-defined external integer types and $static_size_in_bits expressions are outside the model (counted in input_histogram as out-of-model)"]
     ctx.audit()
     ctx.check_theorems("EmbossV.Bounds.Properties_C05", "Bounds/Properties_C05.v", expect_min=6)
 
     # --- (T) the model regenerated from the source of expression_bounds.py, proved equal to Bounds/Model.v ------
+    import time as _time
+    _t0 = _time.time()
     bounds_x.run_tie(ctx, sys.modules[__name__])
+    ctx.extra["regenerated_model_wall_s"] = round(_time.time() - _t0, 1)
 
     # --- (i) helper functions ------------------------------------------------
     n_helper = 6000 if ctx.thorough() else 1500
